@@ -31,7 +31,7 @@ Record linv (U : list entry) (l : log) : Prop := {
   li_time : forall e, In e (ents l) -> e_time e <= l_time l;
 }.
 
-Lemma linv_new U id key s deny : linv U (new_log id key s deny).
+Lemma linv_new U id key s deny t0 : linv U (new_log id key s deny t0).
 Proof.
   split; cbn; try (now constructor); try tauto; try (intros; contradiction).
 Qed.
